@@ -214,9 +214,9 @@ def plan(tier, seed):
     shards = []
     if tier == 'quick':
         for k in range(8):
-            shards.append({'kind': 'segment', 'cells': cells[k::8], 'seed': seed * 100 + k, 'n': 330, 'shrink': False})
+            shards.append({'kind': 'segment', 'cells': cells[k::8], 'seed': seed * 100 + k, 'n': 600, 'shrink': False})
         for k in range(3):
-            shards.append({'kind': 'field', 'cells': cells[k::3], 'seed': seed * 100 + 20 + k, 'n': 300, 'shrink': False})
+            shards.append({'kind': 'field', 'cells': cells[k::3], 'seed': seed * 100 + 20 + k, 'n': 500, 'shrink': False})
         shards.append({'kind': 'component', 'versions': T.VERSIONS, 'seed': seed * 100 + 30, 'n': 400, 'shrink': False})
         for k in range(2):
             shards.append({'kind': 'flat', 'versions': T.VERSIONS, 'seed': seed * 100 + 40 + k, 'n': 150, 'shrink': False})
